@@ -9,7 +9,7 @@ Support definitions for Go code translated AS CODE by cmd/extract (loops*.go).  
 * `forInB` / `whileFuelB` are these loops for bodies that contain `break`: the body yields its state together with
   a flag, `true` = a `break` was executed.
 * `forUp` / `forDown` are the index lists of three-clause loops, `trailingZeros64` is `math/bits.TrailingZeros`
-  on a 64-bit `uint`.
+  and `bitsLen64` is `math/bits.Len` on a 64-bit `uint`.
 -/
 namespace Iota.Go
 
@@ -121,6 +121,15 @@ def cmpDown (signed incl : Bool) (b : BitVec 64) (i : BitVec 64) : Bool :=
 /-- `math/bits.TrailingZeros(x)` for a 64-bit `uint`: the index of the lowest 1 bit, 64 for `x = 0` -/
 def trailingZeros64 (x : BitVec 64) : BitVec 64 :=
   BitVec.ofNat 64 (((List.range 64).find? fun i => x.getLsbD i).getD 64)
+
+/-- `math/bits.Len(x)` for a 64-bit `uint`: the minimum number of bits required to represent `x`, i.e. 64 minus the
+number of leading zeros (the index of the highest 1 bit plus one); 0 for `x = 0` -/
+def bitsLen64 (x : BitVec 64) : BitVec 64 :=
+  BitVec.ofNat 64 ((((List.range 64).reverse.find? fun i => x.getLsbD i).map (· + 1)).getD 0)
+
+example : bitsLen64 0#64 = 0#64 := by decide
+example : bitsLen64 5#64 = 3#64 := by decide
+example : bitsLen64 (BitVec.ofInt 64 (-1)) = 64#64 := by decide
 
 /-- `copy(dst, src)`: the content of `dst` afterwards (the first `min (len dst) (len src)` elements are those of `src`) -/
 def copy {α : Type} (dst src : List α) : List α := src.take dst.length ++ dst.drop src.length
